@@ -102,3 +102,9 @@ def c01_unescape_instability(case, observed, expected):
     return ("\\" in blob or "%" in blob) and a[1] in ("vText", "vCalAddress", "vUri", "vCategory", "vInline", "vDDDTypes",
                                                         "vDDDLists", "vRecur", "vInt", "vDuration", "vPeriod", "vGeo",
                                                         "vUTCOffset", "vBoolean", "vFloat", "vBinary", "vTime", "vDatetime", "vDate")
+
+
+# ---------------------------------------------------------------- C02
+def c02_attach_binary(case, observed, expected):
+    return case.get("n") == "ATTACH" and case.get("k") == "binary" and isinstance(observed, dict) and observed.get("decoded_type") == "URI" \
+        and observed.get("value") == "BINARY"
